@@ -140,7 +140,7 @@ def driver_def(t):
     arms = "\n".join(arm(t, m) for m in t.methods)
     return f"""
 pub const NAME: &str = "{t.name}";
-pub const NMETH: usize = {len(t.methods)};
+pub const NMETH: usize = {t.orig_n or len(t.methods)};
 pub const KINDS: &[&str] = &[{', '.join('"%s"' % k for k in t.kinds())}];
 
 fn drive<O: {t.use()} + Unpin>(o: O, r: Imp, sw: &Shared, sr: &Shared, wid: u64, ops: &[(u8, u64)], fl: &mut Flags, live: &dyn Fn(u64, &Flags) -> Result<(), Fail>) -> Result<(), Fail>
@@ -158,7 +158,7 @@ where O: Sized{bounds}
         fl.methods |= 1 << mi;
         match mi {{
 {arms}
-            _ => unreachable!(),
+            _ => {{ {'' if t.orig_n else 'unreachable!()'} }}
         }}
         if o.is_some() {{ live(1, fl)?; }}
     }}
@@ -234,7 +234,7 @@ pub fn run_case(vc: &Ctx, kind: u8, ops: &[(u8, u64)]) -> Result<Flags, Fail> {{
         let cnt_live = |holders: u64, fl: &Flags| -> Result<(), Fail> {{ ctx_count_check(vc, cnt.load(SeqCst) as usize, holders as usize, fl) }};
         match kind {{
 {arms}
-            _ => unreachable!(),
+            _ => {{ {'' if t.orig_n else 'unreachable!()'} }}
         }}
         // everything derived from the object is gone now
         ctx_count_end(vc, Arc::strong_count(&ctx_arc), base, cnt.load(SeqCst) as usize, &mut fl)?;
